@@ -31,6 +31,11 @@ Ltac step_inv Hst Epc :=
          | context [match bnxt ?k with _ => _ end] => let En := fresh "En" in destruct (bnxt k) eqn:En
          | context [if ?c then _ else _] => let Ec := fresh "Ec" in destruct c eqn:Ec
          end;
+  try (match type of Hst with
+       | context [e3_next ?f ?l0 ?nb0 ?e0] =>
+           let Ee := fresh "Ee" in let r := fresh "r" in
+           destruct (e3_next_cases f l0 nb0 e0) as [Ee|[r Ee]]; rewrite Ee in Hst
+       end);
   try discriminate Hst; inversion Hst; subst; clear Hst.
 
 Section Uniq.
